@@ -29,9 +29,10 @@ const (
 	OpOnce
 	OpAtomic
 	OpLockWait // a writer that has announced itself waits for the readers to leave
+	OpCond     // a harness thread waits until a predicate over the (quiescent) state holds
 )
 
-var opNames = [...]string{"start", "Lock", "RLock", "Once", "atomic", "LockWait"}
+var opNames = [...]string{"start", "Lock", "RLock", "Once", "atomic", "LockWait", "until"}
 
 // LockState lives inside the shim objects; the scheduler reads it with atomic loads only.
 // Mutex: A = held. RWMutex: A = writer, B = readers, W = a writer has announced itself and waits for
@@ -78,6 +79,7 @@ type thread struct {
 	objAddr atomic.Uintptr // identity for labels only
 	lock    atomic.Pointer[LockState]
 	harness atomic.Bool
+	pred    atomic.Pointer[func() bool]
 	fin     chan struct{}
 	name    string // harness threads only; written and read by the scheduler's goroutine
 }
@@ -253,6 +255,14 @@ func (s *Sched) Run(ch Chooser) {
 			}
 			op := int(th.op.Load())
 			addr := th.objAddr.Load()
+			if op == OpCond {
+				// evaluated while every thread is parked or blocked: the predicate may read private
+				// state of the objects under test without racing with them
+				if p := th.pred.Load(); p == nil || (*p)() {
+					enabled = append(enabled, cand{th, op, addr})
+				}
+				continue
+			}
 			if op == OpStart || op == OpAtomic || canProceed(int(th.kind.Load()), op, th.lock.Load()) {
 				enabled = append(enabled, cand{th, op, addr})
 			}
@@ -360,4 +370,29 @@ func AfterUnlock() {
 	if UnlockPoints {
 		Yield()
 	}
+}
+
+// WaitUntil parks the calling harness thread until pred holds. pred is evaluated by the scheduler
+// while the system is quiescent (all threads parked or blocked), so it may look at private state.
+// Outside a scheduled run it returns at once.
+func WaitUntil(pred func() bool) {
+	s := cur.Load()
+	if s == nil || !s.active.Load() {
+		return
+	}
+	raceDisable()
+	th := s.lookup(goid())
+	if th == nil {
+		raceEnable()
+		return
+	}
+	th.pred.Store(&pred)
+	th.op.Store(OpCond)
+	th.kind.Store(KNone)
+	th.lock.Store(nil)
+	th.objAddr.Store(0)
+	th.state.Store(1)
+	<-th.gate
+	th.state.Store(0)
+	raceEnable()
 }
